@@ -491,4 +491,97 @@ example : arrayIndexOf [.num 1, .str "x", .num 1] (.num 1) 1 = some 2 ∧ arrayI
   have e1 : strCompare "string" "number" = 1 := by decide
   simp [arrayIndexOf, scanFrom, valueCompare, tri, typeName, *]
 
+theorem scanDown_spec (v : PValue) : ∀ (rev : List PValue) (ix : Nat),
+    (scanDown v ix rev = -1 ∧ ∀ x ∈ rev, valueCompare x v ≠ 0) ∨
+    (∃ k x, scanDown v ix rev = ((ix - k : Nat) : Int) ∧ rev[k]? = some x ∧ valueCompare x v = 0 ∧
+      ∀ j y, j < k → rev[j]? = some y → valueCompare y v ≠ 0)
+  | [], ix => by simp [scanDown]
+  | x :: xs, ix => by
+    by_cases hx : valueCompare x v = 0
+    · right; exact ⟨0, x, by simp [scanDown, hx], rfl, hx, fun j y hj => by omega⟩
+    · rcases scanDown_spec v xs (ix - 1) with ⟨h1, h2⟩ | ⟨k, y, h1, h2, h3, h4⟩
+      · left; refine ⟨by simp [scanDown, hx, h1], fun w hw => ?_⟩
+        rcases List.mem_cons.mp hw with rfl | hw
+        · exact hx
+        · exact h2 w hw
+      · right
+        refine ⟨k + 1, y, ?_, by simpa using h2, h3, fun j w hj hw => ?_⟩
+        · simp only [scanDown, hx, beq_iff_eq, if_false, h1]
+          congr 1; omega
+        · cases j with
+          | zero => simp at hw; rw [← hw]; exact hx
+          | succ j => exact h4 j w (by omega) (by simpa using hw)
+
+theorem rev_take_get (xs : List PValue) (s k : Nat) (hs : s < xs.length) (hk : k ≤ s) :
+    (xs.take (s + 1)).reverse[k]? = xs[s - k]? := by
+  have hl : (xs.take (s + 1)).length = s + 1 := by rw [List.length_take]; omega
+  rw [List.getElem?_reverse (by omega), hl, List.getElem?_take]
+  have : s + 1 - 1 - k < s + 1 := by omega
+  simp only [this, if_true]
+  congr 1
+
+/-- the scan from position `s < len` downwards -/
+theorem scanDown_take (xs : List PValue) (v : PValue) (s : Nat) (hs : s < xs.length) :
+    (scanDown v s (xs.take (s + 1)).reverse = -1 ∧ ∀ j x, j ≤ s → xs[j]? = some x → valueCompare x v ≠ 0) ∨
+    (∃ (k : Nat) (x : PValue), scanDown v s (xs.take (s + 1)).reverse = (k : Int) ∧ k ≤ s ∧ xs[k]? = some x ∧ valueCompare x v = 0 ∧
+      ∀ j y, k < j → j ≤ s → xs[j]? = some y → valueCompare y v ≠ 0) := by
+  have hl : (xs.take (s + 1)).reverse.length = s + 1 := by rw [List.length_reverse, List.length_take]; omega
+  rcases scanDown_spec v (xs.take (s + 1)).reverse s with ⟨h1, h2⟩ | ⟨k, x, h1, h2, h3, h4⟩
+  · left
+    refine ⟨h1, fun j x hj hx => h2 x ?_⟩
+    have := rev_take_get xs s (s - j) hs (by omega)
+    rw [show s - (s - j) = j by omega, hx] at this
+    exact List.mem_of_getElem? this
+  · right
+    have hk : k ≤ s := by
+      have ⟨hlt, _⟩ := List.getElem?_eq_some_iff.mp h2
+      omega
+    refine ⟨s - k, x, h1, by omega, by rw [← rev_take_get xs s k hs hk]; exact h2, h3, fun j y hj hjs hy => ?_⟩
+    refine h4 (s - j) y (by omega) ?_
+    rw [rev_take_get xs s (s - j) hs (by omega), show s - (s - j) = j by omega]; exact hy
+
+/-- `arrayLastIndexOf(array, value, index)` with a value needle returns the last position `k ≤ index` (default: the last
+position of the array) whose element compares equal to the needle, and -1 when there is none; an `index` past the end is
+the argument error whose value is -1. -/
+theorem lastIndexOf_last (xs : List PValue) (v : PValue) (index : Option Nat) :
+    ((∃ id, v = .fn id) ↔ arrayLastIndexOf xs v index = none) ∧
+    ∀ r, arrayLastIndexOf xs v index = some r →
+      ((∃ i, index = some i ∧ i ≥ xs.length) ∧ r = -1) ∨
+      (r = -1 ∧ ∀ j x, j ≤ index.getD (xs.length - 1) → xs[j]? = some x → valueCompare x v ≠ 0) ∨
+      (∃ (k : Nat) (x : PValue), r = (k : Int) ∧ k ≤ index.getD (xs.length - 1) ∧ xs[k]? = some x ∧ valueCompare x v = 0 ∧
+        ∀ j y, k < j → j ≤ index.getD (xs.length - 1) → xs[j]? = some y → valueCompare y v ≠ 0) := by
+  constructor
+  · cases v <;> cases index <;> simp [arrayLastIndexOf]
+  · intro r hr
+    have hr' : r = match index with
+        | none => scanDown v (xs.length - 1) xs.reverse
+        | some i => if i ≥ xs.length then -1 else scanDown v i (xs.take (i + 1)).reverse := by
+      cases v <;> cases index <;> simp [arrayLastIndexOf] at hr <;> simp [hr]
+    cases index with
+    | some i =>
+      simp only at hr'
+      by_cases hi : i ≥ xs.length
+      · left; exact ⟨⟨i, rfl, hi⟩, by simp [hr', hi]⟩
+      · right
+        simp only [hi, if_false] at hr'
+        simpa [hr'] using scanDown_take xs v i (by omega)
+    | none =>
+      simp only at hr'
+      right
+      cases hxs : xs with
+      | nil => left; subst hxs; simp [hr', scanDown]
+      | cons y ys =>
+        rw [← hxs]
+        have hlen : xs.length - 1 < xs.length := by rw [hxs]; simp
+        have ht : xs.take (xs.length - 1 + 1) = xs := by
+          rw [show xs.length - 1 + 1 = xs.length by omega, List.take_length]
+        have := scanDown_take xs v (xs.length - 1) hlen
+        rw [ht] at this
+        simpa [hr'] using this
+
+example : arrayLastIndexOf [.num 1, .str "x", .num 1, .null] (.num 1) = some 2 ∧
+    arrayLastIndexOf [.num 1, .str "x", .num 1] (.num 1) (some 1) = some 0 ∧ arrayLastIndexOf [] (.num 1) = some (-1) := by
+  have e1 : strCompare "string" "number" = 1 := by decide
+  simp [arrayLastIndexOf, scanDown, valueCompare, tri, typeName, *]
+
 end C11
